@@ -328,6 +328,28 @@ fn corpus(a: &Args, seed: u64, limit: usize, malformed: bool) -> Vec<(String, Ve
         out.retain(|(_, b)| tokenize(b).term == "end");
         out.retain(|(n, _)| n != "s-short-int" && n != "s-begbody");
     }
+    // long names / values (longer than any plausible internal buffer), delivered in fragments
+    {
+        let h = [2u8, 0, 0, 0, 0, 0, 0, 5];
+        let val = |b: &mut Vec<u8>, tag: u8, name: &[u8], body: &[u8]| {
+            b.push(tag);
+            b.extend_from_slice(&(name.len() as u16).to_be_bytes());
+            b.extend_from_slice(name);
+            b.extend_from_slice(&(body.len() as u16).to_be_bytes());
+            b.extend_from_slice(body);
+        };
+        let pat = |n: usize, salt: u8| -> Vec<u8> { (0..n).map(|i| (((i * 7) ^ (i >> 3)) as u8).wrapping_add(salt) | 0x20).collect() };
+        for (i, (nl, vl)) in [(4usize, 5000usize), (5000, 3), (1, 9000), (6, 65535), (300, 4097), (4096, 4096)].iter().enumerate() {
+            let mut b = h.to_vec();
+            b.push(1);
+            val(&mut b, 0x41, &pat(*nl, 1), &pat(*vl, 2));
+            val(&mut b, 0x30, b"", &pat(*vl / 2 + 1, 3));
+            b.push(4);
+            val(&mut b, 0x44, b"k", b"v");
+            b.push(3);
+            out.push((format!("long-{}", i), b));
+        }
+    }
     if let Some(p) = a.get("wirecases") {
         let cases = read_cases(p);
         let stride = (cases.len() / limit.max(1)).max(1);
@@ -432,8 +454,19 @@ pub fn run(a: &Args) {
                         cx.run(id, "async", &data, s, 1, false, endv, "composition");
                         cx.cmp(id);
                     }
+                } else if n > 2000 {
+                    for c in [997usize, 4095, 4096, 4097, 10000] {
+                        let chunks: Vec<usize> = vec![c; n / c + 2];
+                        cx.run(id, "async", &data, with_pendings(&chunks, c, &mut r), c, c % 2 == 0, endv, "long items, uniform chunks");
+                        cx.cmp(id);
+                    }
+                    for k in 0..3 {
+                        let chunks: Vec<usize> = (0..n / 500 + 2).map(|_| 1 + r.below(6000)).collect();
+                        cx.run(id, "async", &data, with_pendings(&chunks, k, &mut r), 1 + r.below(5000), k % 2 == 0, endv, "long items, random chunks");
+                        cx.cmp(id);
+                    }
                 } else {
-                    for c in (1..=n.min(64)).chain([100, 257, 4096]) {
+                    for c in (1..=n.min(64)).chain([100, 257, 1000, 4095, 4096, 4097, 10000]) {
                         let chunks: Vec<usize> = vec![c; n / c + 2];
                         cx.run(id, "async", &data, with_pendings(&chunks, c, &mut r), c, c % 2 == 0, endv, "uniform chunks");
                         cx.cmp(id);
@@ -449,6 +482,23 @@ pub fn run(a: &Args) {
         "C06" => {
             let corp = corpus(a, seed, if quick { 120 } else { 500 }, false);
             for (mi, (id, bytes)) in corp.iter().enumerate() {
+                if bytes.len() > 2000 {
+                    // long names / values: a few fragmentations around plausible buffer sizes, both parsers
+                    let mut all = bytes.clone();
+                    all.extend_from_slice(&[3, 1, 0x21, 0, 0]);
+                    let data = Arc::new(all);
+                    let mid = format!("{}+p", id);
+                    let (endv, _) = cx.msg(&mid, &data);
+                    let n = bytes.len();
+                    cx.run(&mid, "sync", &data, vec![], usize::MAX, false, endv, "reference: greedy blocking");
+                    for c in [997usize, 4095, 4096, 4097, 10000] {
+                        let chunks: Vec<usize> = vec![c; n / c + 2];
+                        cx.run(&mid, "sync", &data, with_intrs(&chunks, c, &mut r), usize::MAX, c % 2 == 0, endv, "long items, uniform chunks + interrupts");
+                        cx.run(&mid, "async", &data, with_pendings(&chunks, c, &mut r), usize::MAX, c % 2 == 1, endv, "long items, uniform chunks + not-ready");
+                        cx.cmp(&mid);
+                    }
+                    continue;
+                }
                 for pv in 0..5usize {
                     let payload: Vec<u8> = match pv {
                         0 => vec![],
@@ -490,7 +540,7 @@ pub fn run(a: &Args) {
                             }
                         }
                     } else if pv <= 3 {
-                        for c in [2usize, 3, 5, 7, 16, 255, 256, 1000] {
+                        for c in [2usize, 3, 5, 7, 16, 255, 256, 1000, 4095, 4097, 10000] {
                             let chunks: Vec<usize> = vec![c; n / c + 2];
                             cx.run(&mid, "sync", &data, with_intrs(&chunks, c, &mut r), usize::MAX, c % 2 == 0, endv, "uniform chunks + interrupts");
                         }
